@@ -117,6 +117,20 @@ def run(check, an: Analysis):
                                'finished before its first turn',
                                path=rules.path_lines(path, index))
                 break
+    # the payload may be any awaitable: it is closed "if it can be closed" (helper or guarded
+    # lookup), never by an unguarded `.close()` that fails for an awaitable without one
+    from .c04 import _closes
+    unguarded = None
+    for path in paths:
+        for index, event in enumerate(path.events):
+            if event.kind == 'call' and isinstance(event.node, ast.Call) and \
+                    rules.value_text(path, index, event.node.func) == 'self.payload.close' \
+                    and not _closes(path, 'self.payload'):
+                unguarded = unguarded or (path, index)
+    check.instance('once', 'wrapper:payload-closed-if-closable', unguarded is None,
+                   where_fn(wfn), 'the wrapper never calls `.close()` on a payload without '
+                   'tolerating that it has none',
+                   path=rules.path_lines(*unguarded) if unguarded else None)
     # Done.__set_done__ raises the flag and triggers in one block
     setdone = an.callee(_scope.DONE, '__set_done__')
     for path in an.paths(setdone):
